@@ -57,6 +57,7 @@ Proof.
   intros Hb Hmin. destruct m as [pk a amt|a|a|f t amt|f key v raw wf|f t amt act|f h raw]; simpl.
   - set (v0 := match get_val s a with Some v => v | None => _ end).
     destruct (negb (v_status v0 =? 0)%N); [intros [= <-]; auto|].
+    destruct (match aget (sinfo s) a with Some si => si_tomb si | None => false end); [intros [= <-]; auto|].
     destruct (Z.ltb_spec amt (p_min_stake (pp s))); [intros [= <-]; auto|].
     destruct (Z.ltb_spec (bal s a) amt); [intros [= <-]; auto|].
     set (s1 := match get_val s a with Some _ => s | None => _ end).
@@ -100,7 +101,9 @@ Proof.
   destruct m as [pk a amt|a|a|f t amt|f key v raw wf|f t amt act|f h raw]; simpl; intros E Hne.
   - exfalso. apply Hne. clear Hne.
     set (v0 := match get_val s a with Some v => v | None => _ end) in *.
-    destruct (negb (v_status v0 =? 0)%N); [discriminate|]. destruct (_ <? _); [discriminate|]. destruct (_ <? _); [discriminate|].
+    destruct (negb (v_status v0 =? 0)%N); [discriminate|].
+    destruct (match aget (sinfo s) a with Some si => si_tomb si | None => false end); [discriminate|].
+    destruct (_ <? _); [discriminate|]. destruct (_ <? _); [discriminate|].
     set (s1 := match get_val s a with Some _ => s | None => _ end) in *.
     assert (G1 : gov_view s1 = gov_view s) by (unfold s1; destruct (get_val s a); reflexivity).
     destruct (bank_send s1 a (m_pool (ma s1)) amt) as [s2|] eqn:Es; [|discriminate].
